@@ -99,7 +99,7 @@ class TD7(OffPolicyCont):
             return None
         if key == "actor_checkpoint":
             return ({"actor_checkpoint", "fixed_embedding_checkpoint"},
-                    [("hard", "actor_checkpoint", "actor"), ("hard", "fixed_embedding_checkpoint", "fixed_embedding")])
+                    [("hard_from_start", "actor_checkpoint", "actor"), ("hard", "fixed_embedding_checkpoint", "fixed_embedding")])
         es["epoch"] += 1
         e = es["epoch"]
         allowed = {"embedding", "embedding_opt", "critic", "critic_opt"}
